@@ -126,6 +126,14 @@ def _fmt(s):
     return s["kind"]
 
 
+class _FakeTree:
+    """stands in for the tree a global stop condition is called with (the shipped precision condition ignores it)"""
+
+
+_FAKE_TREE = _FakeTree()
+_GSC_CACHE: dict = {}
+
+
 def apply_op(op, specs, model, real, inner, layers, bounds, log, maximize) -> list[Violation]:
     from pyhms.core.problem import get_function_problem
     from pyhms.stop_conditions import SingularProblemPrecisionReached
@@ -162,10 +170,17 @@ def apply_op(op, specs, model, real, inner, layers, bounds, log, maximize) -> li
         if get_function_problem(real) is not inner:
             fail("unwrap", "get_function_problem did not return the innermost problem")
     elif k == "gsc":
+        # one condition object per precision layer, consulted repeatedly with the same tree object - as a run does
         for s, m, r in zip(specs, model.layers, layers):
             if s["kind"] == "precision":
-                if bool(SingularProblemPrecisionReached(r)(None)) != m.hit:
-                    fail("precision-gsc", f"SingularProblemPrecisionReached says {SingularProblemPrecisionReached(r)(None)}, model says {m.hit}")
+                cond = _GSC_CACHE.get(id(r))
+                if cond is None or cond[0] is not r:
+                    cond = (r, SingularProblemPrecisionReached(r))
+                    _GSC_CACHE[id(r)] = cond
+                got = bool(cond[1](_FAKE_TREE))
+                if got != m.hit:
+                    fail("precision-gsc", f"SingularProblemPrecisionReached says {got}, model says {m.hit}")
+        vs += compare_state(specs, model, layers, log, where)  # consulting a stop condition must not change the wrappers
     return vs
 
 
